@@ -17,8 +17,9 @@
 EXTENDS Integers, Sequences, FiniteSets, TLC
 CONSTANTS Threads,      \* thread ids: positive integers (0 is "nobody" / pre-existing)
           Cap, Pre, AppendMode
-VARIABLES disk, buf, holder, pc, cur, pos, done, acked
-vars == <<disk, buf, holder, pc, cur, pos, done, acked>>
+VARIABLES disk, buf, holder, pc, cur, pos, done, acked,
+          failed        \* records whose encoder returned an error: <<thread, record index>>
+vars == <<disk, buf, holder, pc, cur, pos, done, acked, failed>>
 RECURSIVE Rep(_, _)
 Rep(x, n) == IF n <= 0 THEN <<>> ELSE <<x>> \o Rep(x, n - 1)
 RECURSIVE Sum(_)
@@ -28,13 +29,13 @@ PreBytes == Rep(<<0, 0>>, Pre)
 Init == /\ disk = IF AppendMode THEN PreBytes ELSE <<>>
         /\ buf = <<>> /\ holder = 0
         /\ pc = [t \in Threads |-> "idle"] /\ cur = [t \in Threads |-> <<>>] /\ pos = [t \in Threads |-> 0]
-        /\ done = [t \in Threads |-> 0] /\ acked = {}
+        /\ done = [t \in Threads |-> 0] /\ acked = {} /\ failed = {}
 Begin(t, sh) == /\ pc[t] = "idle"
                 /\ cur' = [cur EXCEPT ![t] = sh]
                 /\ pos' = [pos EXCEPT ![t] = 0] /\ pc' = [pc EXCEPT ![t] = "wantlock"]
-                /\ UNCHANGED <<disk, buf, holder, done, acked>>
+                /\ UNCHANGED <<disk, buf, holder, done, acked, failed>>
 Lock(t) == /\ pc[t] = "wantlock" /\ holder = 0 /\ holder' = t /\ pc' = [pc EXCEPT ![t] = "encode"]
-           /\ UNCHANGED <<disk, buf, cur, pos, done, acked>>
+           /\ UNCHANGED <<disk, buf, cur, pos, done, acked, failed>>
 BufWrite(t, n) ==
   LET data == Rep(<<t, done[t] + 1>>, n)
       spare == Cap - Len(buf) IN
@@ -48,13 +49,22 @@ Encode(t) == /\ pc[t] = "encode" /\ holder = t
              /\ IF pos[t] < Len(cur[t])
                 THEN BufWrite(t, cur[t][pos[t] + 1]) /\ pos' = [pos EXCEPT ![t] = @ + 1] /\ UNCHANGED pc
                 ELSE pc' = [pc EXCEPT ![t] = "flush"] /\ UNCHANGED <<disk, buf, pos>>
-             /\ UNCHANGED <<holder, cur, done, acked>>
+             /\ UNCHANGED <<holder, cur, done, acked, failed>>
 Flush(t) == /\ pc[t] = "flush" /\ holder = t /\ disk' = disk \o buf /\ buf' = <<>>
-            /\ pc' = [pc EXCEPT ![t] = "unlock"] /\ UNCHANGED <<holder, cur, pos, done, acked>>
+            /\ pc' = [pc EXCEPT ![t] = "unlock"] /\ UNCHANGED <<holder, cur, pos, done, acked, failed>>
 \* the guard is dropped when append returns Ok: the record is acknowledged
 Unlock(t) == /\ pc[t] = "unlock" /\ holder = t /\ holder' = 0
              /\ done' = [done EXCEPT ![t] = @ + 1] /\ acked' = acked \cup {<<t, done[t] + 1, Sum(cur[t])>>}
-             /\ pc' = [pc EXCEPT ![t] = "idle"] /\ UNCHANGED <<disk, buf, cur, pos>>
+             /\ pc' = [pc EXCEPT ![t] = "idle"] /\ UNCHANGED <<disk, buf, cur, pos, failed>>
+\* `self.encoder.encode(&mut *file, record)?` - the encoder gives up after some of its write calls: append returns
+\* the error and the guard is dropped.  Nothing is flushed and nothing is taken back: the bytes written so far stay
+\* where BufWrite put them (buffer or file) and travel with the next flush; everything that was in the file or
+\* acknowledged before stays exactly as it was.  The record is not acknowledged.
+EncodeFail(t) == /\ pc[t] = "encode" /\ holder = t /\ holder' = 0
+                 /\ done' = [done EXCEPT ![t] = @ + 1] /\ failed' = failed \cup {<<t, done[t] + 1>>}
+                 /\ pc' = [pc EXCEPT ![t] = "idle"] /\ UNCHANGED <<disk, buf, cur, pos, acked>>
+\* the appender is dropped (BufWriter's Drop flushes): what is still buffered reaches the file
+Close == /\ holder = 0 /\ disk' = disk \o buf /\ buf' = <<>> /\ UNCHANGED <<holder, pc, cur, pos, done, acked, failed>>
 
 Count(tag) == Cardinality({k \in 1..Len(disk) : disk[k] = tag})
 \* positions at which a new run of equal tags starts
@@ -67,8 +77,11 @@ NotInterleaved == Cardinality({disk[a] : a \in RunStarts}) = Cardinality(RunStar
 ThreadOrder == \A a, b \in RunStarts : (a < b /\ disk[a][1] = disk[b][1] /\ disk[a][1] # 0) => disk[a][2] <= disk[b][2]
 PrefixKept == AppendMode => (Len(disk) >= Pre /\ SubSeq(disk, 1, Pre) = PreBytes)
 TruncatedAtOpen == ~AppendMode => \A k \in 1..Len(disk) : disk[k] # <<0, 0>>
-\* the file is whole records, except possibly a prefix of the lock holder's record in flight
+\* the file is whole records, except possibly a prefix of the lock holder's record in flight and of records whose
+\* encoder failed
 WholeExceptHolder == \A k \in 1..Len(disk) : LET tg == disk[k] IN
     tg[1] = 0 \/ (\E r \in acked : r[1] = tg[1] /\ r[2] = tg[2]) \/ (holder = tg[1] /\ tg[2] = done[tg[1]] + 1)
+    \/ <<tg[1], tg[2]>> \in failed
+FailedNotAcked == \A f \in failed : ~\E r \in acked : r[1] = f[1] /\ r[2] = f[2]
 NoDupNoLoss == \A r \in acked : Count(<<r[1], r[2]>>) <= r[3]
 =============================================================================
